@@ -410,6 +410,29 @@ Definition response_sig_stage (req : bool) (r : response) : result unit :=
   | None => if req then Err SignatureError else Ok tt
   end.
 
+(* check_subject_confirmation_in_response_to: None = AttributeError raised (swallowed by loads) *)
+Fixpoint confs_name_irt (irt : option str) (cs : list confirmation) : option bool :=
+  match cs with
+  | [] => Some true
+  | sc :: cs' =>
+      match c_data sc with
+      | None => None
+      | Some d => if (match d_irt d, irt with Some x, Some y => str_eqb x y | None, None => true | _, _ => false end)
+                  then confs_name_irt irt cs' else Some false
+      end
+  end.
+Fixpoint assertions_name_irt (irt : option str) (l : list assertion) : option bool :=
+  match l with
+  | [] => Some true
+  | a :: rest =>
+      if negb (a_has_subject a) then None else
+      match confs_name_irt irt (a_confirmations a) with
+      | None => None
+      | Some false => Some false
+      | Some true => assertions_name_irt irt rest
+      end
+  end.
+
 (* AuthnResponse.loads after the signature stage *)
 Definition loads_rest (c : cfg) (r : response) : result st :=
   let s0 := {| came_from := None; not_on_or_after := 0; session_nooa := 0; nid := None; acc := [] |} in
@@ -419,27 +442,7 @@ Definition loads_rest (c : cfg) (r : response) : result st :=
     | Some cf =>
         (* check_subject_confirmation_in_response_to: every confirmation of every (plain) assertion
            must carry SubjectConfirmationData/@InResponseTo == irt; AttributeError (no data / no subject) is swallowed *)
-        let ok :=
-          (fix all_as (l : list assertion) : option bool :=      (* None = AttributeError raised *)
-             match l with
-             | [] => Some true
-             | a :: rest =>
-                 if negb (a_has_subject a) then None else
-                 match (fix all_cs (cs : list confirmation) : option bool :=
-                          match cs with
-                          | [] => Some true
-                          | sc :: cs' =>
-                              match c_data sc with
-                              | None => None
-                              | Some d => if (match d_irt d, irt with Some x, Some y => str_eqb x y | None, None => true | _, _ => false end)
-                                          then all_cs cs' else Some false
-                              end
-                          end) (a_confirmations a) with
-                 | None => None
-                 | Some false => Some false
-                 | Some true => all_as rest
-                 end
-             end) (if r_valid_instance r then r_assertions r else []) in
+        let ok := assertions_name_irt irt (if r_valid_instance r then r_assertions r else []) in
         match ok with
         | Some false => Err (E "UnsolicitedResponse")
         | _ => Ok (set_cf s0 (Some cf))
